@@ -44,6 +44,32 @@ fn main() {
                     let got = tauri_typegen::generators::base::templates::verif_add_types_prefix(&rendered);
                     if got == want_q { Ok(got) } else { Err(format!("add_types_prefix(`{}`) = `{}`, C02 requires `{}`", rendered, got, want_q)) }
                 });
+                // C02, composed as the templates do: what the REAL visitors print, then the prefix filter.  Any text is
+                // accepted in which exactly the project types are referenced, each through `types.` (names inside the
+                // known-finding shapes record / tuple are judged by the oracle text instead)
+                for (vname, real) in [("TypeScriptVisitor::visit_type", TypeScriptVisitor::with_config(&cfg).visit_type(t)), ("ZodVisitor::visit_type_for_interface", ZodVisitor::with_config(&cfg).visit_type_for_interface(t))] {
+                    rep.case("prefix_of_rendered_qualifies", &format!("{} through {} = `{}`", show(t), vname, real), &|| {
+                        let got = tauri_typegen::generators::base::templates::verif_add_types_prefix(&real);
+                        if got == want_q { return Ok(got); }
+                        if real == rendered { return Ok(got); } // same input as prefix_qualifies: judged there
+                        let cs: Vec<char> = got.chars().collect();
+                        let mut i = 0;
+                        while i < cs.len() {
+                            if cs[i].is_alphabetic() || cs[i] == '_' {
+                                let st = i;
+                                while i < cs.len() && (cs[i].is_alphanumeric() || cs[i] == '_') { i += 1; }
+                                let id: String = cs[st..i].iter().collect();
+                                let qualified = st >= 6 && cs[st - 6..st].iter().collect::<String>() == "types.";
+                                let project = id == "User" || id == "PathBuf" || id == "DateTime";
+                                if qualified && !project { return Err(format!("add_types_prefix(`{}`) = `{}`: `types.{}` names nothing types.ts exports", real, got, id)); }
+                                if !qualified && project { return Err(format!("add_types_prefix(`{}`) = `{}`: project type `{}` is not qualified", real, got, id)); }
+                                continue;
+                            }
+                            i += 1;
+                        }
+                        Ok(got)
+                    });
+                }
             }
             let want_z = zs(&m, t, false, true);
             rep.case("zod_param_schema", &input, &|| {
